@@ -840,7 +840,17 @@ fn run_stream(ch: &mut Choices, ctx: &mut RunCtx) -> SimResult {
         // ---- single bit flip
         3 => {
             ctx.op("deliver_bit_flip");
-            let k = ch.idx("flip.pos", stream.len());
+            // a third of the flips land in the first 16 bytes of a record (header word, version group id,
+            // consensus branch id, first count field / block version): the structural bytes, which a
+            // uniformly drawn position in a multi-kilobyte record almost never hits
+            let k = if ch.chance("flip.in_header", 1, 3) {
+                let r = ch.idx("flip.rec", recs.len());
+                let len = (bounds[r + 1] - bounds[r]).min(16);
+                ctx.probe("bit_flip_in_record_header");
+                bounds[r] + ch.idx("flip.hpos", len)
+            } else {
+                ch.idx("flip.pos", stream.len())
+            };
             let bit = ch.below("flip.bit", 8);
             let mut s2 = stream.clone();
             s2[k] ^= 1 << bit;
